@@ -510,6 +510,15 @@ def origin(body, op, through_calls=True, max_nodes=400, _depth=0):
                         (t.get('callee') or '').endswith('FromResidual::from_residual'):
                     continue      # builds the Err / Break / None value: not where an Ok payload comes from
                 res.calls.append(t)
+                if proj and isinstance(proj[0], dict) and proj[0].get('as') == 'Ok' and body.term(bb).get('k') == 'call':
+                    # the Ok payload read in the Ok arm of an explicit `match call() { Ok(v) => v, Err(_) => return Err(..) }`:
+                    # the same checked hand-over as `call()?`
+                    try:
+                        te_ = try_edges(body, bb)
+                        if te_ is not None and te_[1] is not None and body.term(body.term(bb).get('target')).get('k') == 'switch' and all_paths_err(body, te_[1]):
+                            res.flags.add('try')
+                    except (KeyError, TypeError, IndexError):
+                        pass
                 tr = transparent(t) if through_calls else None
                 if tr is not None and tr[0] < len(t['args']):
                     res.flags.add(tr[1])
@@ -707,6 +716,12 @@ def try_edges(body, call_bb):
             if si and si.get('kind') == 'enum' and si.get('adt') == 'core::result::Result' and not si['place'].get('p') and si['place']['l'] == dest:
                 okb = si['variants'].get('Ok', si['otherwise'] if 'Ok' in (si.get('otherwise_variants') or []) else None)
                 erb = si['variants'].get('Err', si['otherwise'] if 'Err' in (si.get('otherwise_variants') or []) else None)
+                if okb is not None and erb is not None:
+                    return okb, erb
+            # `let Some(x) = call() else { return Err(..) }` / `match call() { Some(..) => .., None => .. }`: (Some edge, None edge)
+            if si and si.get('kind') == 'enum' and si.get('adt') == 'core::option::Option' and not si['place'].get('p') and si['place']['l'] == dest:
+                okb = si['variants'].get('Some', si['otherwise'] if 'Some' in (si.get('otherwise_variants') or []) else None)
+                erb = si['variants'].get('None', si['otherwise'] if 'None' in (si.get('otherwise_variants') or []) else None)
                 if okb is not None and erb is not None:
                     return okb, erb
             return None
